@@ -2,6 +2,7 @@ package rules
 
 import (
 	"fmt"
+	"go/token"
 	"go/types"
 	"sort"
 	"strings"
@@ -14,7 +15,7 @@ import (
 func init() { Registry["C09"] = checkC09 }
 
 func checkC09(p *core.Prog, r *core.Report) {
-	r.Explanation = "Decides structural necessary conditions of exact log shipping: (R1) ReplicationBufferQueue.Pop returns success only when the item it hands out continues the cursor (fresh/recycled cursor: item.seq - cursor.seq == 1, or the first item, or an unset cursor; live cursor: item.seq == cursor.seq before advancing); every other path returns a non-nil error ('out of buf'), so a recycled item under a lagging cursor is never silently followed; (R2) handleInitSync answers an unknown position with ERR_NOT_FOUND unless it is exactly the manager's current position, and refuses ids with file index 0; (R3) the follower reacts to ERR_NOT_FOUND by zeroing its position and re-requesting a full transfer; (R4) Aof.PushLock publishes every record to the ring after the file write attempt on every path, taking the ring mutex before releasing the append mutex (file order = ring order); (R5) ReplicationClient.Process hands every decoded record to its three pipelines (replay, append, re-publish) exactly once each in that order, and every exit sends the nil terminator to all three; (R6) the full-transfer bound: with an empty ring the transfer stops one past the last persisted record (offset + 1), and sendFiles stops at the first record at or past the bound. (R7) the follower's receive ring is at least two buffers larger than each pipeline queue's capacity, so a record still queued is never overwritten. (R9) the ring accepts a resume position only after examining all 16 bytes of the follower's log id. (R10) a cursor that does not get its position from the ring (full transfer from an empty ring, resume at exactly the current position) is positioned at ring.seq-1 before the answer is written, and (R1) Pop no longer waives continuity for an unpositioned cursor (a real defect was repaired). NOT decided: the rest of ring overflow behaviour under slow followers, reconnect races, convergence of snapshots."
+	r.Explanation = "Decides structural necessary conditions of exact log shipping: (R1) ReplicationBufferQueue.Pop returns success only when the item it hands out continues the cursor (fresh/recycled cursor: item.seq - cursor.seq == 1, or the first item, or an unset cursor; live cursor: item.seq == cursor.seq before advancing); every other path returns a non-nil error ('out of buf'), so a recycled item under a lagging cursor is never silently followed; (R2) handleInitSync answers an unknown position with ERR_NOT_FOUND unless it is exactly the manager's current position, and refuses ids with file index 0; (R3) the follower reacts to ERR_NOT_FOUND by zeroing its position and re-requesting a full transfer; (R4) Aof.PushLock publishes every record to the ring after the file write attempt on every path, taking the ring mutex before releasing the append mutex (file order = ring order); (R5) ReplicationClient.Process hands every decoded record to its three pipelines (replay, append, re-publish) exactly once each in that order, and every exit sends the nil terminator to all three; (R6) the full-transfer bound: with an empty ring the transfer stops one past the last persisted record (offset + 1), and sendFiles stops at the first record at or past the bound. (R7) the follower's receive ring is at least two buffers larger than each pipeline queue's capacity, so a record still queued is never overwritten. (R9) the ring accepts a resume position only after examining all 16 bytes of the follower's log id. (R10) a cursor that does not get its position from the ring (full transfer from an empty ring, resume at exactly the current position) is positioned at ring.seq-1 before the answer is written, and (R1) Pop no longer waives continuity for an unpositioned cursor (a real defect was repaired). (R11) the sender writes a record directly to the stream only with its batch buffer empty. NOT decided: the rest of ring overflow behaviour under slow followers, reconnect races, convergence of snapshots."
 	r.Assumptions = []string{"Go type checker and go/ssa are correct for /repo"}
 	c09R1(p, r)
 	c09R2(p, r)
@@ -26,6 +27,7 @@ func checkC09(p *core.Prog, r *core.Report) {
 	c09R8(p, r)
 	c09R9(p, r)
 	c09R10(p, r)
+	c09R11(p, r)
 }
 
 func c09R1(p *core.Prog, r *core.Report) {
@@ -645,5 +647,229 @@ func c09R10(p *core.Prog, r *core.Report) {
 	}
 	if n == 0 {
 		r.Fail("C09/R10: neither branch found in handleInitSync")
+	}
+}
+
+// c09R11: the sender batches records in a 4 KiB buffer and writes a record
+// that is too large for the buffer directly to the stream. "No record skipped,
+// duplicated or reordered" needs the batch to be empty at that moment: a
+// direct write while earlier records still sit in the batch overtakes them.
+// Decided per loop iteration of SendProcess, on the flow graph: every acyclic
+// path from the loop header to a direct write that does not pass the write of
+// the batch must be excluded by its own size tests (the record fits the
+// remaining room and is larger than the whole buffer: impossible for a
+// non-negative fill level). The batch is assumed possibly non-empty at the
+// loop header.
+func c09R11(p *core.Prog, r *core.Report) {
+	const rule = "C09/R11"
+	r.Rule(rule, "SendProcess writes a record directly to the stream only with the batch buffer empty (the batch was written out in the same iteration, or the path's size tests exclude a non-empty batch)", 1)
+	fn := mustFunc(p, r, "server.(*ReplicationServer).SendProcess")
+	if fn == nil {
+		return
+	}
+	// a slice of a buffer made in this function (make with a constant size is an
+	// array allocation sliced whole)
+	isBatchArg := func(v ssa.Value) bool {
+		for d := 0; d < 4; d++ {
+			switch x := v.(type) {
+			case *ssa.Slice:
+				v = x.X
+			case *ssa.MakeSlice, *ssa.Alloc:
+				return d > 0
+			default:
+				return false
+			}
+		}
+		return false
+	}
+	var directs []ssa.Instruction
+	flushAt := map[*ssa.BasicBlock][]ssa.Instruction{}
+	for _, b := range fn.Blocks {
+		for _, ins := range b.Instrs {
+			c := core.StaticCallee(ins)
+			if c == nil || c.Name() != "WriteBytes" {
+				continue
+			}
+			args := core.CallArgs(ins)
+			if isBatchArg(args[len(args)-1]) {
+				flushAt[b] = append(flushAt[b], ins)
+			} else {
+				directs = append(directs, ins)
+			}
+		}
+	}
+	if len(directs) == 0 {
+		r.Fail("C09/R11: SendProcess has no direct write of a record")
+		return
+	}
+	// linear forms over SSA values
+	var name func(v ssa.Value, d int) string
+	name = func(v ssa.Value, d int) string {
+		if d > 8 {
+			return v.Name()
+		}
+		switch x := v.(type) {
+		case *ssa.UnOp:
+			return name(x.X, d+1)
+		case *ssa.FieldAddr:
+			return name(x.X, d+1) + "." + core.FieldKeyOf(x.X.Type(), x.Field).Field
+		case *ssa.Parameter:
+			return x.Name()
+		}
+		return v.Name()
+	}
+	var lin func(v ssa.Value, d int) core.Lin
+	lin = func(v ssa.Value, d int) core.Lin {
+		if c, ok := constIntOf(v); ok {
+			return core.LinConst(c)
+		}
+		if d > 8 {
+			return core.LinTerm("v:" + v.Name())
+		}
+		switch x := v.(type) {
+		case *ssa.Convert:
+			return lin(x.X, d+1)
+		case *ssa.BinOp:
+			switch x.Op {
+			case token.ADD:
+				return lin(x.X, d+1).Add(lin(x.Y, d+1))
+			case token.SUB:
+				return lin(x.X, d+1).Sub(lin(x.Y, d+1))
+			}
+		case *ssa.Call:
+			if bi, ok := x.Call.Value.(*ssa.Builtin); ok && bi.Name() == "len" && len(x.Call.Args) == 1 {
+				return core.LinTerm("len:" + name(x.Call.Args[0], 0))
+			}
+		case *ssa.Phi:
+			return core.LinTerm("phi:" + x.Name())
+		}
+		return core.LinTerm("v:" + v.Name())
+	}
+	condFacts := func(b *ssa.BasicBlock, succ int) []core.Lin {
+		if len(b.Instrs) == 0 {
+			return nil
+		}
+		iff, ok := b.Instrs[len(b.Instrs)-1].(*ssa.If)
+		if !ok {
+			return nil
+		}
+		cmp, ok := iff.Cond.(*ssa.BinOp)
+		if !ok {
+			return nil
+		}
+		if bt, ok := cmp.X.Type().Underlying().(*types.Basic); !ok || bt.Info()&types.IsInteger == 0 {
+			return nil
+		}
+		l, rr := lin(cmp.X, 0), lin(cmp.Y, 0)
+		op := cmp.Op
+		if succ == 1 { // false edge: negate
+			switch op {
+			case token.GTR:
+				op = token.LEQ
+			case token.GEQ:
+				op = token.LSS
+			case token.LSS:
+				op = token.GEQ
+			case token.LEQ:
+				op = token.GTR
+			default:
+				return nil
+			}
+		}
+		switch op {
+		case token.GTR: // l > r  ->  l - r - 1 >= 0
+			return []core.Lin{l.Sub(rr).Add(core.LinConst(-1))}
+		case token.GEQ:
+			return []core.Lin{l.Sub(rr)}
+		case token.LSS:
+			return []core.Lin{rr.Sub(l).Add(core.LinConst(-1))}
+		case token.LEQ:
+			return []core.Lin{rr.Sub(l)}
+		}
+		return nil
+	}
+	isHeader := func(b *ssa.BasicBlock) bool {
+		for _, pred := range b.Preds {
+			if b.Dominates(pred) {
+				return true
+			}
+		}
+		return false
+	}
+	for i, d := range directs {
+		key := fmt.Sprintf("server.(*ReplicationServer).SendProcess: direct write#%d only with an empty batch", i+1)
+		db := d.Block()
+		var h *ssa.BasicBlock
+		for x := db; x != nil; x = x.Idom() {
+			if isHeader(x) && blockReaches2(db, x) {
+				h = x
+				break
+			}
+		}
+		if h == nil {
+			r.Hold(rule, key, p.InstrPos(d), "not inside the sending loop")
+			continue
+		}
+		flushedBefore := func(b *ssa.BasicBlock, upto ssa.Instruction) bool {
+			for _, f := range flushAt[b] {
+				if upto == nil {
+					return true
+				}
+				for _, ins := range b.Instrs {
+					if ins == f {
+						return true
+					}
+					if ins == upto {
+						break
+					}
+				}
+			}
+			return false
+		}
+		feasible, paths := "", 0
+		var dfs func(b *ssa.BasicBlock, facts []core.Lin, seen map[*ssa.BasicBlock]bool)
+		dfs = func(b *ssa.BasicBlock, facts []core.Lin, seen map[*ssa.BasicBlock]bool) {
+			if feasible != "" || paths > 5000 {
+				return
+			}
+			if b == db {
+				if flushedBefore(b, d) {
+					return
+				}
+				paths++
+				if core.LinEntails(facts, core.LinConst(-1)) {
+					return
+				}
+				for _, f := range facts {
+					for t := range f.T {
+						if strings.HasPrefix(t, "phi:") && core.LinEntails(facts, core.LinTerm(t).Scale(-1).Add(core.LinConst(-1))) {
+							return // the fill level would be negative
+						}
+					}
+				}
+				feasible = fmt.Sprintf("%d size tests on the path, none excludes a non-empty batch", len(facts))
+				return
+			}
+			if flushedBefore(b, nil) {
+				return // the batch is written out on this path
+			}
+			for si, s := range b.Succs {
+				if seen[s] || s == h || !h.Dominates(s) || (s != db && !blockReaches2(s, db) && s != db) {
+					continue
+				}
+				seen[s] = true
+				dfs(s, append(append([]core.Lin{}, facts...), condFacts(b, si)...), seen)
+				delete(seen, s)
+			}
+		}
+		dfs(h, nil, map[*ssa.BasicBlock]bool{h: true})
+		switch {
+		case paths > 5000:
+			r.Fail("C09/R11: too many paths to %s", p.InstrPos(d))
+		case feasible != "":
+			r.Violate(rule, key, p.InstrPos(d), "a record is written directly to the follower's stream on a path of the sending loop that does not write the batch out first ("+feasible+"): records still sitting in the batch buffer are overtaken - the follower receives, applies, logs and re-publishes the leader's records out of order", nil)
+		default:
+			r.Hold(rule, key, p.InstrPos(d), fmt.Sprintf("%d paths without a batch write, all excluded by their size tests", paths))
+		}
 	}
 }
